@@ -210,7 +210,7 @@ func (c *Config) FlattenedKeys(opts ...Option) []string {
 		normalizedOptions.pathSep = "."
 	}
 
-	if c.IsDict() {
+	if len(c.fields.dict()) > 0 {
 		for _, v := range c.fields.dict() {
 
 			subcfg, err := v.toConfig(normalizedOptions)
